@@ -122,7 +122,35 @@ pub struct FreshResult {
 
 /// A fresh simulated process: new thread (empty thread-local module cache), hash keys chosen by
 /// the simulator, no faults, a snapshot of the file system.
+fn relocate(path: &str, root: &str) -> String {
+    match path.strip_prefix("/p/") {
+        Some(rest) => format!("{}/{}", root, rest),
+        None => path.to_string(),
+    }
+}
+
 pub fn fresh_process(fs: &Fs, entry: &str, settings: &Settings, v: &Variant) -> FreshResult {
+    if let Some(root) = &v.root {
+        // same project, other absolute location; outputs are mapped back to "/p"
+        let fs2: Fs = fs.iter().map(|(k, c)| (relocate(k, root), c.clone())).collect();
+        let mut v2 = v.clone();
+        v2.root = None;
+        v2.preregister = v.preregister.iter().map(|f| relocate(f, root)).collect();
+        let mut r = fresh_process(&fs2, &relocate(entry, root), settings, &v2);
+        let back = |s: &str| s.replace(&format!("{}/", root), "/p/");
+        let fix = |t: &mut Triple| {
+            t.code = t.code.as_ref().map(|c| back(c));
+            t.emitted = t.emitted.iter().map(|e| back(e)).collect();
+            t.diag = t.diag.as_ref().map(|d| back(d));
+        };
+        fix(&mut r.first);
+        if let Some(s) = r.second.as_mut() {
+            fix(s);
+        }
+        r.files_read = r.files_read.iter().map(|f| back(f)).collect();
+        r.resolved_to = r.resolved_to.iter().map(|f| back(f)).collect();
+        return r;
+    }
     let fs = fs.clone();
     let entry = entry.to_string();
     let settings = settings.to_json();
